@@ -408,3 +408,33 @@ def refs(n, decl_only=True):
         elif x["k"] == "MemberExpr" and x.get("mk") == "field":
             out.add(("F", x["n"]))
     return out
+
+
+def extract_headers(tag):
+    """All inline / header-defined functions of /repo/include, once: a generated unit that includes every
+    repository header (a header that cannot be combined with the others is left out and reported)."""
+    hs = []
+    inc = os.path.join(REPO, "include")
+    for root, _, fs in os.walk(inc):
+        for f in fs:
+            if f.endswith(".hpp") or f.endswith(".h"):
+                hs.append(os.path.relpath(os.path.join(root, f), inc))
+    hs.sort()
+    ensure_gen()
+    excluded = []
+    unit = os.path.join(GEN, "all_headers_%s.cpp" % tag)
+    for attempt in range(6):
+        with open(unit, "w") as f:
+            f.write("".join('#include "%s"\n' % h for h in hs if h not in excluded))
+        outdir = os.path.join(WORK, "facts", tag)
+        shutil.rmtree(outdir, ignore_errors=True)
+        os.makedirs(outdir)
+        u, rc, err, _ = _run_one((unit, outdir, True, False))
+        if rc == 0:
+            return outdir, excluded
+        bad = set(re.findall(re.escape(inc) + r"/([\w/\.]+):\d+:\d+: error", err))
+        bad -= set(excluded)
+        if not bad:
+            raise AnalysisBroken("repository headers do not parse: " + err.strip()[-300:])
+        excluded += sorted(bad)
+    raise AnalysisBroken("too many repository headers cannot be combined: " + ", ".join(excluded))
